@@ -62,6 +62,7 @@ JOBS = {
     "gffA_str": ("string", GFF_A),
     "gffDUP": ("fails", GFF_A + [GFF_A[2]]),  # duplicate ID under the default merge_strategy='error': the import raises
     "gtfA_noinfer": ("noinfer", GTF_A),       # GTF with both inference switches off
+    "gtfA_noinfer_t": ("noinfer_t", GTF_A),   # GTF with transcript inference off only (the setting for files that carry transcript lines)
     "gffA_force": ("force", GFF_A),          # output file already exists; force=True
     "gffB_url": ("url", GFF_B),              # input given as a file:// URL
     "gffA_debug": ("debug", GFF_A),          # verbose="debug": the log level must not change what is left behind
@@ -70,7 +71,7 @@ JOBS = {
 EXPECT_FAIL = {"gffDUP"}
 SETS2T = [("gffA_str", "gffA_str")]          # explored with torn first writes, within a pre-emption bound
 SETS2 = [("gffDUP", "gffB"), ("gtfA_noinfer", "gffA"), ("gffA", "gffA"), ("gffA", "gffB"), ("gffA", "gtfA"), ("gtfA", "gtfB"), ("gtfA", "gtfA"), ("gffB", "gffA_str"), ("gtfC", "gffB"), ("gtfA", "gffA_force"), ("gffB_url", "gffA"),
-         ("gffA_debug", "gtfA"), ("gffA_force", "gffB_prefix")]
+         ("gffA_debug", "gtfA"), ("gffA_force", "gffB_prefix"), ("gtfA_noinfer_t", "gtfA_noinfer")]
 SETS3 = [("gffA", "gtfA", "gffB"), ("gtfA", "gtfC", "gtfB"), ("gffA", "gffA", "gffA")]
 READERS = [2, 3]
 
@@ -86,9 +87,10 @@ def bounds(tier):
 
 def make_import(kind, lines, outdb, indir, idx):
     text = "\n".join(lines) + "\n"
-    if kind in ("fails", "noinfer"):
+    if kind in ("fails", "noinfer", "noinfer_t"):
         path = dbutil.write_text(indir, "in%d.txt" % idx, text)
-        kw = dict(disable_infer_genes=True, disable_infer_transcripts=True) if kind == "noinfer" else {}
+        kw = dict(disable_infer_genes=True, disable_infer_transcripts=True) if kind == "noinfer" else (
+            dict(disable_infer_transcripts=True) if kind == "noinfer_t" else {})
 
         def fn():
             db = gffutils.create_db(path, outdb, verbose=False, **kw)
@@ -152,7 +154,8 @@ def reference(ctx, job):
                 os._exit(code)
         _, status = os.waitpid(pid, 0)
         if status != 0:
-            raise EngineError("solitary reference import of %s failed" % job)
+            ctx.memo[key] = "FAILED"          # an ordinary import, alone in its process, raised: reported by the caller
+            return ctx.memo[key]
         ctx.memo[key] = dbutil.canon(out)
     return ctx.memo[key]
 
@@ -170,6 +173,10 @@ def run_imports(ch, ctx, jobs):
             reference(ctx, j)
         ctx.memo["all_refs"] = True
     refs = [reference(ctx, j) for j in jobs]
+    if any(r == "FAILED" for r in refs):
+        ctx.fail("solitary-import-failed", dict(jobs="+".join(j for j, r in zip(jobs, refs) if r == "FAILED")),
+                 note="a plain import, alone in a fresh process, raised; nothing can be compared with it")
+        return
     # the controlling process itself ran an import with this very temp directory before starting the workers
     import tempfile
     saved = tempfile.tempdir
@@ -266,12 +273,13 @@ def run_readers(ch, ctx, n):
 
 def shards(tier):
     # the shard fixes the first two scheduling decisions (parallelism across workers)
-    sets2 = [x for x in SETS2 if tier != "quick" or x not in (("gtfA", "gtfA"), ("gffA", "gffB"))]     # quick drops two same-format pairs
+    sets2 = [x for x in SETS2 if tier != "quick" or x not in (("gtfA", "gtfA"), ("gffA", "gffB"), ("gtfA_noinfer", "gffA"))]     # quick drops three pairs whose job kinds also occur in other pairs
     out = [("imports2", s, (a, b)) for s in sets2 for a in (0, 1) for b in (0, 1)]
     out += [("imports2torn", s, (a, b)) for s in SETS2T for a in (0, 1) for b in (0, 1)]
     out += [("imports3", s, (a, b)) for s in SETS3 for a in (0, 1, 2) for b in (0, 1, 2)]
     out += [("readers", n, (a, b)) for n in READERS for a in range(n) for b in range(n)]
     out.append(("imports1", ("gffBIG",), ()))
+    out.append(("hashseeds", ("gffMERGE",), ()))
     return out
 
 
@@ -295,8 +303,49 @@ class Fixed(object):
         return self.ch.choose(label, options)
 
 
+GFF_MERGE = ["c1\tsrc_b\tgene\t1\t100\t.\t+\t.\tID=g1;Note=n2", "c1\tsrc_a\tgene\t1\t100\t.\t+\t.\tID=g1;Note=n1",
+             "c1\tsrc_c\tgene\t1\t100\t.\t+\t.\tID=g1;Note=n3,n1", "c1\tsrc_a\tmRNA\t1\t100\t.\t+\t.\tID=m1;Parent=g1"]
+_DRIVER = """import sys
+sys.path.insert(0, sys.argv[1])
+import gffutils
+db = gffutils.create_db(sys.argv[2], sys.argv[3], merge_strategy="merge", force_merge_fields=["source"], verbose=False)
+db.conn.close()
+"""
+
+
+def run_hashseeds(ch, ctx):
+    """Processes that are started separately do not share the interpreter's string-hash seed (an environment answer the
+    scheduler does not own): the same import is made in fresh interpreters under every seed of a small set and must give one
+    database. The job merges three duplicates with a force-merged column, i.e. it builds sets of strings."""
+    import subprocess
+    import sys
+    wd = ctx.fresh_dir()
+    src = dbutil.write_text(wd, "merge.gff", "\n".join(GFF_MERGE) + "\n")
+    drv = dbutil.write_text(wd, "driver.py", _DRIVER)
+    repo = os.path.dirname(os.path.dirname(os.path.abspath(gffutils.__file__)))
+    seeds = ("0", "1", "2", "3", "17", "4711")
+    got = {}
+    for s in seeds:
+        out = os.path.join(wd, "h%s.db" % s)
+        r = subprocess.run([sys.executable, drv, repo, src, out], env=dict(os.environ, PYTHONHASHSEED=s), capture_output=True, text=True, timeout=300)
+        if r.returncode != 0:
+            ctx.fail("import-process-failed", dict(jobs="gffMERGE", hash_seed=True), seed=s, stderr=r.stderr[-400:])
+            return
+        got[s] = dbutil.canon(out, attr_sets=True)          # the order of merged attribute values is nobody's promise (C05 compares them as sets)
+    ctx.nontrivial()
+    ctx.outcome(("hashseeds", len(seeds)))
+    ctx.sample(lambda: dict(job="gffMERGE", hash_seeds=list(seeds), stored=[r_[:3] for r_ in got["0"]["features"]]))
+    ref = got[seeds[0]]
+    for s in seeds[1:]:
+        bad = [k for k in ref if ref[k] != got[s][k]]
+        ctx.check(not bad, "database-differs-between-interpreter-hash-seeds", dict(tables=",".join(bad)), seeds=[seeds[0], s],
+                  a=[r_[:3] for r_ in ref["features"]], b=[r_[:3] for r_ in got[s]["features"]])
+
+
 def body(ch, ctx):
     kind, what, prefix = ctx.shard
+    if kind == "hashseeds":
+        return run_hashseeds(ch, ctx)
     fch = Fixed(ch, prefix)
     try:
         if kind.startswith("imports"):
@@ -311,7 +360,7 @@ def groups_of(tier):
     b = dev_bound(tier)
     allsh = shards(tier)
     return [
-        ("imports2", [s for s in allsh if s[0] in ("imports2", "imports1")], None),
+        ("imports2", [s for s in allsh if s[0] in ("imports2", "imports1", "hashseeds")], None),
         ("imports2torn", [s for s in allsh if s[0] == "imports2torn"], b["imports2torn"]),
         ("imports3", [s for s in allsh if s[0] == "imports3"], b["imports3"]),
         ("readers2", [s for s in allsh if s[0] == "readers" and s[1] == 2], b["readers2"]),
